@@ -43,6 +43,7 @@ def _gh_post(c):
             dom(c, r).contains(c.paths[i]),
             r[c.paths[i]][1].name == OStr.some(c.name),
             r[c.paths[i]][1].value == OStr.some(cur(c.fs, c.name, c.paths[i])),
+            cur(c.fs, c.name, c.paths[i]).length() > 0,
         )),
         Implies(c.state.is_some, _state_inv_of(c.h, c.state.val)),
     )
@@ -62,23 +63,6 @@ contract(
     doc="[to be verified] for every requested path the returned dict holds the hash of that very path under `name` "
         "(state hits and fresh hashes merged by path); nothing is said about the ORDER of the returned dict",
 )
-
-# ---------------- HashFileDB.add (the Named precondition) ----------------
-contract(
-    "dvc_data.hashfile.db:HashFileDB.add",
-    params=dict(self=HashFileDB, path=TList(TStr), fs=FileSystem, oid=TList(OStr), hardlink=TBool),
-    returns=TInt,
-    requires=lambda c: And(
-        c.path.length() == c.oid.length(),
-        # Named: every object is filed under the digest of the bytes at the path it is copied from
-        all_i(c.path.length(), lambda i: c.oid[i] == OStr.some(cur(c.fs, c.h.get("HashFileDB.hash_name", c.self), c.path[i]))),
-    ),
-    modifies=lambda c: [("HashFileDB.objs", c.self), ("HashesCache.table", None)],
-    verify=False,
-    assumed=True,
-    doc="[body to be verified] add(paths, fs, oids): requires that oids[i] is the digest of the bytes at paths[i] (content addressing)",
-)
-
 
 # ---------------- _build_files ----------------
 def _path_of(c, fname):
@@ -110,7 +94,8 @@ contract(
         Implies(c.odb.is_some, And(_state_inv_of(c.h, c.h.get("HashFileDB.state", c.odb.val)),
                                    c.name == c.h.get("HashFileDB.hash_name", c.odb.val))),
     ),
-    modifies=lambda c: [("HashFileDB.objs", None), ("HashesCache.table", None)],
+    raises={"NotImplementedError": (None, None)},
+    modifies=lambda c: [("HashFileDB.objs", None), ("HashesCache.table", None), ("G.lfiles",), ("G.l444",), ("FileSystem.files", None), ("FileSystem.removed", None)],
     ensures=_bf_post,
     no_merge=True,
     props=["C01", "C02", "C03"],
